@@ -43,16 +43,19 @@ func (c *fconn) Send(p packet.Generic, async bool) error {
 	if c.closed || c.peerGone {
 		return errors.New("connection closed")
 	}
+	p = clonePacket(p)
 	c.nsent++
 	if c.failAt > 0 {
 		c.failAt--
 		if c.failAt == 0 {
 			c.w.logf("obs sendfail %d %s", c.id, wire.ShowPacket(p))
+			c.w.record(ev{kind: "sendfail", conn: c.id, pkt: p, txt: wire.ShowPacket(p)})
 			c.closeLocked()
 			return errors.New("injected send failure")
 		}
 	}
 	c.w.logf("obs sent %d %s", c.id, wire.ShowPacket(p))
+	c.w.record(ev{kind: "sent", conn: c.id, pkt: p, txt: wire.ShowPacket(p)})
 	c.w.delivered(c.id, p)
 	return nil
 }
@@ -84,6 +87,7 @@ func (c *fconn) closeLocked() {
 	if !c.closed {
 		c.closed = true
 		c.w.logf("obs closed %d", c.id)
+		c.w.record(ev{kind: "closed", conn: c.id})
 		select {
 		case <-c.cl:
 		default:
@@ -167,6 +171,7 @@ func (b *wrapBackend) Setup(c *broker.Client, id string, clean bool) (broker.Ses
 			r = "1"
 		}
 		b.w.logf("obs setup %d %s", b.connOf(c), r)
+		b.w.record(ev{kind: "setup", conn: b.connOf(c), txt: r})
 	}
 	return s, resumed, err
 }
@@ -181,13 +186,19 @@ func (b *wrapBackend) Unsubscribe(c *broker.Client, topics []string, ack broker.
 
 func (b *wrapBackend) Publish(c *broker.Client, msg *packet.Message, ack broker.Ack) error {
 	b.w.logf("obs bpublish %d %s", b.connOf(c), wire.ShowMessage(msg))
+	b.w.record(ev{kind: "bpublish", conn: b.connOf(c), txt: wire.ShowMessage(msg), pkt: &packet.Publish{Message: *msg.Copy()}})
+	b.w.mu.Lock()
 	b.w.bpublishes[b.connOf(c)] = append(b.w.bpublishes[b.connOf(c)], wire.ShowMessage(msg))
+	b.w.mu.Unlock()
 	return b.MemoryBackend.Publish(c, msg, b.wrapAck(ack))
 }
 
 func (b *wrapBackend) Terminate(c *broker.Client) error {
 	b.w.logf("obs terminate %d", b.connOf(c))
+	b.w.record(ev{kind: "terminate", conn: b.connOf(c)})
+	b.w.mu.Lock()
 	b.w.terminates[b.connOf(c)]++
+	b.w.mu.Unlock()
 	return b.MemoryBackend.Terminate(c)
 }
 
@@ -223,7 +234,16 @@ type peer struct {
 	will      *packet.Message
 }
 
+// ev is one entry of the global, ordered event history of a case (stimuli and observations)
+type ev struct {
+	kind string // stim-send stim-drop stim-conn sent sendfail closed bpublish terminate setup bclose ackrelease
+	conn int
+	pkt  packet.Generic // copy (for sent / stim-send)
+	txt  string
+}
+
 type World struct {
+	hist       []ev
 	o          *out.W
 	prop       string
 	be         *broker.MemoryBackend
@@ -268,6 +288,25 @@ func (w *World) logf(f string, a ...interface{}) {
 	w.mu.Unlock()
 }
 
+func (w *World) record(e ev) {
+	w.mu.Lock()
+	w.hist = append(w.hist, e)
+	w.mu.Unlock()
+}
+
+// clonePacket snapshots a packet (the broker keeps mutating some of them, e.g. the dup flag)
+func clonePacket(p packet.Generic) packet.Generic {
+	buf := make([]byte, p.Len())
+	if _, err := p.Encode(buf); err != nil {
+		return p
+	}
+	q, _ := p.Type().New()
+	if _, err := q.Decode(buf); err != nil {
+		return p
+	}
+	return q
+}
+
 func (w *World) op(line string) {
 	w.trace = append(w.trace, line)
 	w.o.Op(line, "ok")
@@ -275,6 +314,8 @@ func (w *World) op(line string) {
 
 // delivered is called (under the conn lock) for every packet the broker wrote to a peer
 func (w *World) delivered(c int, p packet.Generic) {
+	w.mu.Lock()
+	defer w.mu.Unlock()
 	pr := w.peers[c]
 	if pr == nil {
 		return
@@ -328,6 +369,7 @@ func (w *World) Conn() int {
 	w.conns[c] = fc
 	w.peers[c] = &peer{}
 	w.op(fmt.Sprintf("br conn %d", c))
+	w.record(ev{kind: "stim-conn", conn: c})
 	w.clients[c] = broker.NewClient(w.wb, fc)
 	w.settle()
 	return c
@@ -336,6 +378,7 @@ func (w *World) Conn() int {
 func (w *World) Send(c int, p packet.Generic) {
 	w.op(fmt.Sprintf("br send %d %s", c, wire.ShowPacket(p)))
 	w.o.Count("stim/send/" + wire.TypeName(p.Type()))
+	w.record(ev{kind: "stim-send", conn: c, pkt: clonePacket(p), txt: wire.ShowPacket(p)})
 	fc := w.conns[c]
 	fc.mu.Lock()
 	dead := fc.closed || fc.peerGone
@@ -346,9 +389,29 @@ func (w *World) Send(c int, p packet.Generic) {
 	w.settle()
 }
 
+// SendBatch pipelines several packets without waiting for replies
+func (w *World) SendBatch(c int, ps []packet.Generic) {
+	for _, p := range ps {
+		w.op(fmt.Sprintf("br send %d %s", c, wire.ShowPacket(p)))
+		w.o.Count("stim/send/" + wire.TypeName(p.Type()))
+		w.record(ev{kind: "stim-send", conn: c, pkt: clonePacket(p), txt: wire.ShowPacket(p)})
+	}
+	fc := w.conns[c]
+	for _, p := range ps {
+		fc.mu.Lock()
+		dead := fc.closed || fc.peerGone
+		fc.mu.Unlock()
+		if !dead {
+			fc.in <- p
+		}
+	}
+	w.settle()
+}
+
 func (w *World) Drop(c int) {
 	w.op(fmt.Sprintf("br drop %d", c))
 	w.o.Count("stim/drop")
+	w.record(ev{kind: "stim-drop", conn: c})
 	w.conns[c].peerClose()
 	w.settle()
 }
@@ -371,6 +434,7 @@ func (w *World) AckMode(m string) {
 func (w *World) AckRelease() {
 	w.op("br ackrelease")
 	w.o.Count("stim/ackrelease")
+	w.record(ev{kind: "ackrelease"})
 	done := make(chan struct{})
 	go func() { w.wb.release(); close(done) }() // from another goroutine
 	<-done
@@ -380,6 +444,7 @@ func (w *World) AckRelease() {
 func (w *World) BackendClose() {
 	w.op("br bclose")
 	w.o.Count("stim/bclose")
+	w.record(ev{kind: "bclose"})
 	done := make(chan struct{})
 	go func() { w.be.Close(time.Second); close(done) }()
 	<-done
@@ -408,6 +473,7 @@ func (w *World) finish() {
 	}
 	time.Sleep(time.Hour)
 	synctest.Wait()
+	w.runMonitors()
 	// every connection that was set up is terminated exactly once, and its closed signal fired
 	for c, cl := range w.clients {
 		select {
